@@ -5,7 +5,9 @@ package main
 import (
 	"fmt"
 	"math/rand"
+	"os"
 	"regexp"
+	"runtime/debug"
 	"sort"
 	"strings"
 )
@@ -202,6 +204,14 @@ func switchSuite() []swModel {
 	add("alternative that can never match", "'b' 'y' / [z-a] e / 'c' 'z' / [q-p]", func(m *model) *Obj {
 		return m.alt(m.seq(m.char("b"), m.char("y")), m.seq(m.rng("z", "a"), e(m)), m.seq(m.char("c"), m.char("z")), m.rng("q", "p"))
 	})
+	// … whose span, read the other way round, is disjoint from every other alternative: a first-set
+	// that is too large is harmless for the ordering and fatal for the skipped first test
+	add("alternative that can never match", "[w-q] 'y' / 'b' 'y' / 'c' 'z'  (span disjoint from the others)", func(m *model) *Obj {
+		return m.alt(m.seq(m.rng("w", "q"), m.char("y")), m.seq(m.char("b"), m.char("y")), m.seq(m.char("c"), m.char("z")))
+	})
+	add("alternative that can never match", "'b' e / [k-e] / 'c' e / [w-q] e", func(m *model) *Obj {
+		return m.alt(m.seq(m.char("b"), e(m)), m.rng("k", "e"), m.seq(m.char("c"), e(m)), m.seq(m.rng("w", "q"), e(m)))
+	})
 	add("alternative that can never match", "[z-a] / [y-b] / [x-c]  (none can match)", func(m *model) *Obj {
 		return m.alt(m.rng("z", "a"), m.rng("y", "b"), m.rng("x", "c"))
 	})
@@ -220,6 +230,35 @@ func switchSuite() []swModel {
 		m.addRule("S", m.alt(m.seq(m.name("A"), m.opaqueChild(true, false)), m.char("b"), m.char("c")), 1)
 		m.addRule("A", m.seq(m.rng("a", "a"), m.query(m.char("q"))), 1)
 		return 0
+	}})
+	s = append(s, swModel{Name: "'a' e / B e / 'c' e  with B <- [k-e] (referenced once: inlined under -inline)", Hop: "alternative that can never match", Build: func(m *model) int {
+		m.addRule("S", m.alt(m.seq(m.char("a"), m.opaqueChild(true, false)), m.seq(m.name("B"), m.opaqueChild(true, false)), m.seq(m.char("c"), m.opaqueChild(true, false))), 1)
+		m.addRule("B", m.rng("k", "e"), 1)
+		return 0
+	}})
+	s = append(s, swModel{Name: "'a' e / B e / 'c' e  with B <- [k-e] 'x' (referenced twice)", Hop: "alternative that can never match", Build: func(m *model) int {
+		m.addRule("S", m.alt(m.seq(m.char("a"), m.opaqueChild(true, false)), m.seq(m.name("B"), m.opaqueChild(true, false)), m.seq(m.char("c"), m.opaqueChild(true, false))), 1)
+		m.addRule("B", m.seq(m.rng("k", "e"), m.char("x")), 2)
+		return 0
+	}})
+	// recursion: the first-set of a rule that is still being computed comes from the first pass
+	s = append(s, swModel{Name: "Inner <- 'b' / Item / 'c' / 'd'  inside Item <- '(' Inner ')' / 'b' 'x'  (choice behind a consuming element of a recursive rule)", Hop: "recursive rules", Build: func(m *model) int {
+		m.addRule("S", m.name("Item"), 1)
+		m.addRule("Item", m.alt(m.seq(m.char("("), m.name("Inner"), m.char(")")), m.seq(m.char("b"), m.char("x"))), 2)
+		m.addRule("Inner", m.alt(m.char("b"), m.name("Item"), m.char("c"), m.char("d")), 2)
+		return 2
+	}})
+	s = append(s, swModel{Name: "Y <- X / 'z' / 'x' 'q'  with P <- 'x' X ; X <- P 'a' / 'y' Y  (the first-set of X depends on P, which is in progress when X is first computed)", Hop: "recursive rules", Build: func(m *model) int {
+		m.addRule("P", m.seq(m.char("x"), m.name("X")), 2)
+		m.addRule("X", m.alt(m.seq(m.name("P"), m.char("a")), m.seq(m.char("y"), m.name("Y"))), 2)
+		m.addRule("Y", m.alt(m.name("X"), m.char("z"), m.seq(m.char("x"), m.char("q"))), 1)
+		return 2
+	}})
+	s = append(s, swModel{Name: "List <- 'a' Tail ; Tail <- ',' List / ';' / List / 'e'  (mutual recursion, overlapping through the recursion)", Hop: "recursive rules", Build: func(m *model) int {
+		m.addRule("S", m.name("List"), 1)
+		m.addRule("List", m.seq(m.char("a"), m.name("Tail")), 3)
+		m.addRule("Tail", m.alt(m.seq(m.char(","), m.name("List")), m.char(";"), m.name("List"), m.char("e"), m.seq(m.char("a"), m.char("z"))), 2)
+		return 2
 	}})
 	s = append(s, swModel{Name: "choice inside a rule referenced from a choice", Hop: "nested rules", Build: func(m *model) int {
 		m.addRule("S", m.alt(m.seq(m.name("A"), m.opaqueChild(true, false)), m.char("x"), m.char("y")), 1)
@@ -350,6 +389,8 @@ func runSwitchSuite(r *Repo, specs []swModel, optSets []modelOpts) ([]*swResult,
 				sr.Err = fmt.Sprint(p)
 				if u, ok := p.(undecided); ok {
 					sr.Err = u.msg
+				} else if os.Getenv("PEGSA_DEBUG") != "" {
+					fmt.Fprintf(os.Stderr, "panic in %s: %v\n%s\n", sr.Spec.Name, p, debug.Stack())
 				}
 			}
 		}()
@@ -366,22 +407,64 @@ func runSwitchSuite(r *Repo, specs []swModel, optSets []modelOpts) ([]*swResult,
 		m1.finish()
 		if sr.Opts.Switch {
 			before := m1.dump(m1.rules[ri], 0, map[*Obj]bool{})
-			if e := m1.applySwitch(r, sb, func(n *Obj, c bool, s *NSet) {
-				oc, os := m1.firstOracleSafe(n)
-				if os == nil {
+			// the PEG definition of (must-consume, FIRST) for every node, taken before anything is
+			// rewritten; what the closure answers for a node the LAST time it is asked is what the
+			// rewriting pass works with (earlier rounds may be estimates for rules still in progress)
+			type fo struct {
+				c    bool
+				s    *NSet
+				desc string
+			}
+			oracle := map[*Obj]fo{}
+			var pre func(n *Obj, d int)
+			seenPre := map[*Obj]bool{}
+			pre = func(n *Obj, d int) {
+				if n == nil || seenPre[n] || d > 40 {
 					return
 				}
-				if c && !oc {
-					sr.FirstBad = append(sr.FirstBad, fmt.Sprintf("%s is reported as must-consume although it can succeed without consuming", m1.describeNode(n)))
+				seenPre[n] = true
+				if oc, os := m1.firstOracleSafe(n); os != nil {
+					oracle[n] = fo{oc, os, m1.describeNode(n)}
 				}
-				if !os.subsetOf(s) {
-					sr.FirstBad = append(sr.FirstBad, fmt.Sprintf("FIRST(%s) is computed as %s but the expression can start with %s", m1.describeNode(n), setDesc(s), setDesc(os)))
+				for _, k := range m1.kids(n) {
+					pre(k, d+1)
 				}
+			}
+			for _, rl := range m1.rules {
+				pre(rl, 0)
+			}
+			type obs struct {
+				c bool
+				s *NSet
+			}
+			last := map[*Obj]obs{}
+			var order []*Obj
+			if e := m1.applySwitch(r, sb, func(n *Obj, c bool, s *NSet) {
+				if _, seen := last[n]; !seen {
+					order = append(order, n)
+				}
+				last[n] = obs{c, s.copy()}
 			}); e != "" {
 				sr.Err = "optimizeAlternates not evaluable: " + e
 				return
 			}
+			for _, n := range order {
+				o, ok := oracle[n]
+				if !ok {
+					continue
+				}
+				got := last[n]
+				if got.c && !o.c {
+					sr.FirstBad = append(sr.FirstBad, fmt.Sprintf("%s is reported as must-consume although it can succeed without consuming", o.desc))
+				}
+				if !o.s.subsetOf(got.s) {
+					sr.FirstBad = append(sr.FirstBad, fmt.Sprintf("FIRST(%s) is computed as %s but the expression can start with %s", o.desc, setDesc(got.s), setDesc(o.s)))
+				}
+			}
 			sr.Rewrote = before != m1.dump(m1.rules[ri], 0, map[*Obj]bool{})
+			if os.Getenv("PEGSA_DEBUG") != "" && strings.Contains(sr.Spec.Name, os.Getenv("PEGSA_DEBUG")) {
+				fmt.Fprintf(os.Stderr, "MODEL %s [%s]\n before: %s\n after:  %s\n", sr.Spec.Name, optsName(sr.Opts), before, m1.dump(m1.rules[ri], 0, map[*Obj]bool{}))
+			}
 		}
 		sr.TV = checkModelAgainst(r, ti, rg, m1, m0, ri, sr.Spec.Name+" ["+optsName(sr.Opts)+"]")
 	})
@@ -496,7 +579,7 @@ func checkC02(c *Check) {
 					und = append(und, name+": "+strings.Join(tv.Und[:min(2, len(tv.Und))], " | "))
 					continue
 				} else {
-					missing, extra := tv.projectMulti(projEquivMulti)
+					missing, extra := tv.project(projEquivRaw)
 					for i, x := range extra {
 						if i >= 2 {
 							msgs = append(msgs, fmt.Sprintf("(+%d more)", len(extra)-2))
